@@ -23,7 +23,8 @@ CONSTANTS Procs,     \* scheduler processes
           AddFirst   \* TRUE: a dependency is registered with the token before its first check (what aio_submit does);
                      \* FALSE: the other order, in which a release that falls between the two is lost
 
-VARIABLE wl          \* the workload, fixed by Init: [owner: job -> process that submits it, req: job -> amount, total]
+VARIABLE wl          \* the workload, fixed by Init: [owner: job -> process that submits it, req: job -> amount, total,
+                     \*   totals: the totals with which a process may declare the token again]
 Owner == wl.owner
 Req == wl.req
 Total == wl.total
@@ -38,9 +39,11 @@ VARIABLES files,     \* job -> "absent" | "empty" | "written"
           jobst,     \* job -> "idle" | "registered" / "checked" (between the two steps of a submission) | "submitted" | "holding" | "running" | "ended" | "released"
           dstat,     \* job -> "WAIT" | "OK"  (what its scheduler believes)
           reclaiming, \* process -> jobs whose reclaim thread has decided to delete the token file
-          notify     \* process -> jobs whose dependency is about to be re-checked (aio_notify closures)
+          notify,    \* process -> jobs whose dependency is about to be re-checked (aio_notify closures)
+          info       \* token.info: [total: what the file says, ptotal: process -> the total it has in memory,
+                     \*              pending: process -> a modification of the file not yet handled, max: largest total so far]
 
-vars == <<files, ipc, cs, alive, obs, avail, cache, watching, pend, jobst, dstat, notify, reclaiming, wl>>
+vars == <<files, ipc, cs, alive, obs, avail, cache, watching, pend, jobst, dstat, notify, reclaiming, wl, info>>
 
 None == [kind |-> "none", job |-> "-", step |-> "-"]
 Present(j) == files[j] # "absent"
@@ -58,6 +61,7 @@ InitWith(w) ==
   /\ pend = [p \in Procs |-> {}]
   /\ jobst = [j \in Jobs |-> "idle"] /\ dstat = [j \in Jobs |-> "WAIT"]
   /\ notify = [p \in Procs |-> {}] /\ reclaiming = [p \in Procs |-> {}]
+  /\ info = [total |-> w.total, ptotal |-> [p \in Procs |-> w.total], pending |-> [p \in Procs |-> FALSE], max |-> w.total]
 
 (* every live observer is told about a change of the directory (including the process that made it) *)
 Tell(kinds, j) == [p \in Procs |-> IF alive[p] /\ obs[p] THEN pend[p] \cup {<<k, j>> : k \in kinds} ELSE pend[p]]
@@ -68,7 +72,7 @@ Status(p, j) == IF Req[j] <= avail[p] THEN "OK" ELSE "WAIT"
 Submit(j) ==
   /\ alive[Owner[j]] /\ jobst[j] = "idle"
   /\ jobst' = [jobst EXCEPT ![j] = "submitted"] /\ dstat' = [dstat EXCEPT ![j] = Status(Owner[j], j)]
-  /\ UNCHANGED <<files, ipc, cs, alive, obs, avail, cache, watching, pend, notify, reclaiming, wl>>
+  /\ UNCHANGED <<files, ipc, cs, alive, obs, avail, cache, watching, pend, notify, reclaiming, wl, info>>
 
 (* the same in the two steps of aio_submit (scheduler/base.py l.589-593): the dependency is added to the token's
    dependents -- from then on a notification re-checks it -- and checked a first time *)
@@ -76,23 +80,24 @@ Waiting == {"submitted", "registered"}          \* registered with the token, no
 SubmitAdd(j) ==
   /\ alive[Owner[j]] /\ jobst[j] = (IF AddFirst THEN "idle" ELSE "checked")
   /\ jobst' = [jobst EXCEPT ![j] = IF AddFirst THEN "registered" ELSE "submitted"]
-  /\ UNCHANGED <<files, ipc, cs, alive, obs, avail, cache, watching, pend, dstat, notify, reclaiming, wl>>
+  /\ UNCHANGED <<files, ipc, cs, alive, obs, avail, cache, watching, pend, dstat, notify, reclaiming, wl, info>>
 SubmitCheck(j) ==
   /\ alive[Owner[j]] /\ jobst[j] = (IF AddFirst THEN "registered" ELSE "idle")
   /\ jobst' = [jobst EXCEPT ![j] = IF AddFirst THEN "submitted" ELSE "checked"] /\ dstat' = [dstat EXCEPT ![j] = Status(Owner[j], j)]
-  /\ UNCHANGED <<files, ipc, cs, alive, obs, avail, cache, watching, pend, notify, reclaiming, wl>>
+  /\ UNCHANGED <<files, ipc, cs, alive, obs, avail, cache, watching, pend, notify, reclaiming, wl, info>>
 
 Lock(p, kind, j) ==
   /\ alive[p] /\ cs[p] = None /\ ipc = "free" /\ Owner[j] = p
   /\ (kind = "acq" => jobst[j] = "submitted") /\ (kind = "rel" => jobst[j] \in {"aborting", "ended"})
   /\ ipc' = p /\ cs' = [cs EXCEPT ![p] = [kind |-> kind, job |-> j, step |-> "locked"]]
-  /\ UNCHANGED <<files, alive, obs, avail, cache, watching, pend, jobst, dstat, notify, reclaiming, wl>>
+  /\ UNCHANGED <<files, alive, obs, avail, cache, watching, pend, jobst, dstat, notify, reclaiming, wl, info>>
 
 (* _update(): recount from the directory, cache every file, start a reclaim thread for files first seen *)
 Recount(p) ==
   /\ alive[p] /\ cs[p].step = "locked" /\ ipc = p
   /\ IF Readable \/ FixF5
-     THEN /\ avail' = [avail EXCEPT ![p] = Total - Sum({j \in OnDisk : files[j] = "written"})]
+     THEN /\ avail' = [avail EXCEPT ![p] = info.total - Sum({j \in OnDisk : files[j] = "written"})]     \* (token.info is read again)
+          /\ info' = [info EXCEPT !.ptotal[p] = info.total]
           /\ cache' = [cache EXCEPT ![p] = {j \in OnDisk : files[j] = "written"}]
           /\ watching' = [watching EXCEPT ![p] = @ \cup ({j \in OnDisk : files[j] = "written"} \ cache[p])]
           /\ files' = [j \in Jobs |-> IF files[j] = "empty" THEN "absent" ELSE files[j]]   \* (repaired) a dead writer's file is removed
@@ -100,40 +105,40 @@ Recount(p) ==
           /\ UNCHANGED ipc
      ELSE (* ValueError out of the critical section: the token cannot be used any more *)
           /\ cs' = [cs EXCEPT ![p] = None] /\ ipc' = "free"
-          /\ UNCHANGED <<avail, cache, watching, files, notify, reclaiming, wl>>
+          /\ UNCHANGED <<avail, cache, watching, files, info>>
   /\ UNCHANGED <<alive, obs, pend, jobst, dstat, notify, reclaiming, wl>>
 
 AcqFail(p) ==
   /\ alive[p] /\ cs[p].kind = "acq" /\ cs[p].step = "counted" /\ avail[p] < Req[cs[p].job]
   /\ cs' = [cs EXCEPT ![p] = None] /\ ipc' = "free"
   /\ dstat' = [dstat EXCEPT ![cs[p].job] = Status(p, cs[p].job)]       \* dependency.check() after the LockError
-  /\ UNCHANGED <<files, alive, obs, avail, cache, watching, pend, jobst, notify, reclaiming, wl>>
+  /\ UNCHANGED <<files, alive, obs, avail, cache, watching, pend, jobst, notify, reclaiming, wl, info>>
 
 CreateOpen(p) ==
   /\ alive[p] /\ cs[p].kind = "acq" /\ cs[p].step = "counted" /\ avail[p] >= Req[cs[p].job] /\ ipc = p
   /\ files' = [files EXCEPT ![cs[p].job] = "empty"] /\ pend' = Tell({"created"}, cs[p].job)
   /\ cs' = [cs EXCEPT ![p].step = "opened"]
-  /\ UNCHANGED <<ipc, alive, obs, avail, cache, watching, jobst, dstat, notify, reclaiming, wl>>
+  /\ UNCHANGED <<ipc, alive, obs, avail, cache, watching, jobst, dstat, notify, reclaiming, wl, info>>
 
 CreateWrite(p) ==
   /\ alive[p] /\ cs[p].step = "opened" /\ ipc = p
   /\ files' = [files EXCEPT ![cs[p].job] = "written"] /\ pend' = Tell({"modified"}, cs[p].job)
   /\ cs' = [cs EXCEPT ![p].step = "written"]
-  /\ UNCHANGED <<ipc, alive, obs, avail, cache, watching, jobst, dstat, notify, reclaiming, wl>>
+  /\ UNCHANGED <<ipc, alive, obs, avail, cache, watching, jobst, dstat, notify, reclaiming, wl, info>>
 
 AcqOk(p) ==
   /\ alive[p] /\ cs[p].step = "written"
   /\ avail' = [avail EXCEPT ![p] = @ - Req[cs[p].job]] /\ cache' = [cache EXCEPT ![p] = @ \cup {cs[p].job}]
   /\ jobst' = [jobst EXCEPT ![cs[p].job] = "holding"]
   /\ cs' = [cs EXCEPT ![p] = None] /\ ipc' = "free"
-  /\ UNCHANGED <<files, alive, obs, watching, pend, dstat, notify, reclaiming, wl>>
+  /\ UNCHANGED <<files, alive, obs, watching, pend, dstat, notify, reclaiming, wl, info>>
 
 RelDelete(p) ==
   /\ alive[p] /\ cs[p].kind = "rel" /\ cs[p].step = "counted" /\ ipc = p
   /\ LET j == cs[p].job
      IN /\ files' = [files EXCEPT ![j] = "absent"] /\ pend' = IF Present(j) THEN Tell({"deleted"}, j) ELSE pend
   /\ cs' = [cs EXCEPT ![p].step = "deleted"]
-  /\ UNCHANGED <<ipc, alive, obs, avail, cache, watching, jobst, dstat, notify, reclaiming, wl>>
+  /\ UNCHANGED <<ipc, alive, obs, avail, cache, watching, jobst, dstat, notify, reclaiming, wl, info>>
 
 (* the taken token is known (cached): the amount comes back, the dependents are notified *)
 RelOk(p) ==
@@ -144,34 +149,34 @@ RelOk(p) ==
         /\ jobst' = [jobst EXCEPT ![j] = "released"]
   /\ cs' = [cs EXCEPT ![p] = None] /\ ipc' = "free"
   /\ notify' = [notify EXCEPT ![p] = @ \cup {k \in Jobs : Owner[k] = p /\ jobst[k] \in Waiting}]     \* aio_notify()
-  /\ UNCHANGED <<files, pend, alive, obs, watching, dstat, reclaiming, wl>>
+  /\ UNCHANGED <<files, pend, alive, obs, watching, dstat, reclaiming, wl, info>>
 
 (* aio_notify after a release / a deleted event: every waiting dependency of this process is re-checked *)
 Recheck(p, j) ==
   /\ alive[p] /\ (StrictEvents => j \in notify[p])
   /\ notify' = [notify EXCEPT ![p] = @ \ {j}]
   /\ dstat' = IF avail[p] > 0 /\ jobst[j] # "idle" THEN [dstat EXCEPT ![j] = Status(p, j)] ELSE dstat   \* every dependent is re-checked
-  /\ UNCHANGED <<files, ipc, cs, alive, obs, avail, cache, watching, pend, jobst, reclaiming, wl>>
+  /\ UNCHANGED <<files, ipc, cs, alive, obs, avail, cache, watching, pend, jobst, reclaiming, wl, info>>
 
 (* ---------------- the job ---------------- *)
 JobStart(j) == /\ jobst[j] = "holding" /\ alive[Owner[j]] /\ cs[Owner[j]].job # j /\ jobst' = [jobst EXCEPT ![j] = "running"]
-               /\ UNCHANGED <<files, ipc, cs, alive, obs, avail, cache, watching, pend, dstat, notify, reclaiming, wl>>
+               /\ UNCHANGED <<files, ipc, cs, alive, obs, avail, cache, watching, pend, dstat, notify, reclaiming, wl, info>>
 (* the start of the job is aborted (another dependency could not be locked): the job lock is given back first *)
 Abort(j) == /\ jobst[j] = "holding" /\ alive[Owner[j]] /\ jobst' = [jobst EXCEPT ![j] = "aborting"]
-            /\ UNCHANGED <<files, ipc, cs, alive, obs, avail, cache, watching, pend, dstat, notify, reclaiming, wl>>
+            /\ UNCHANGED <<files, ipc, cs, alive, obs, avail, cache, watching, pend, dstat, notify, reclaiming, wl, info>>
 JobEnd(j) == /\ jobst[j] = "running" /\ jobst' = [jobst EXCEPT ![j] = "ended"]
-             /\ UNCHANGED <<files, ipc, cs, alive, obs, avail, cache, watching, pend, dstat, notify, reclaiming, wl>>
+             /\ UNCHANGED <<files, ipc, cs, alive, obs, avail, cache, watching, pend, dstat, notify, reclaiming, wl, info>>
 
 (* ---------------- observer thread (no ipc lock) ---------------- *)
 OnCreatedOrModified(p, kind, j) ==
   /\ alive[p] /\ obs[p] /\ (StrictEvents => <<kind, j>> \in pend[p]) /\ cs[p] = None       \* (the handler takes the in-process lock)
   /\ pend' = [pend EXCEPT ![p] = @ \ {<<kind, j>>}]
-  /\ IF j \in cache[p] \/ files[j] = "absent" THEN UNCHANGED <<cache, watching, obs, notify, reclaiming, wl>>
+  /\ IF j \in cache[p] \/ files[j] = "absent" THEN UNCHANGED <<cache, watching, obs, notify, reclaiming, wl, info>>
      ELSE IF files[j] = "empty"
           THEN (* parse error: ignored when repaired, otherwise the observer thread dies *)
-               /\ obs' = [obs EXCEPT ![p] = FixF5] /\ UNCHANGED <<cache, watching, notify, reclaiming, wl>>
+               /\ obs' = [obs EXCEPT ![p] = FixF5] /\ UNCHANGED <<cache, watching, notify, reclaiming, wl, info>>
           ELSE /\ cache' = [cache EXCEPT ![p] = @ \cup {j}] /\ watching' = [watching EXCEPT ![p] = @ \cup {j}] /\ UNCHANGED obs
-  /\ UNCHANGED <<files, ipc, cs, alive, avail, jobst, dstat, notify, reclaiming, wl>>
+  /\ UNCHANGED <<files, ipc, cs, alive, avail, jobst, dstat, notify, reclaiming, wl, info>>
 
 OnDeleted(p, j) ==
   /\ alive[p] /\ obs[p] /\ (StrictEvents => <<"deleted", j>> \in pend[p]) /\ cs[p] = None
@@ -180,8 +185,8 @@ OnDeleted(p, j) ==
      THEN /\ cache' = [cache EXCEPT ![p] = @ \ {j}] /\ avail' = [avail EXCEPT ![p] = @ + Req[j]]
           /\ notify' = IF avail[p] + Req[j] > 0
                        THEN [notify EXCEPT ![p] = @ \cup {k \in Jobs : Owner[k] = p /\ jobst[k] \in Waiting}] ELSE notify
-     ELSE UNCHANGED <<cache, avail, notify, reclaiming, wl>>
-  /\ UNCHANGED <<files, ipc, cs, alive, obs, watching, jobst, dstat, reclaiming, wl>>
+     ELSE UNCHANGED <<cache, avail, notify, reclaiming, wl, info>>
+  /\ UNCHANGED <<files, ipc, cs, alive, obs, watching, jobst, dstat, reclaiming, wl, info>>
 
 (* ---------------- reclaim thread: the job has ended, its token file is deleted ---------------- *)
 ReclaimDecide(p, j) ==
@@ -189,13 +194,38 @@ ReclaimDecide(p, j) ==
   /\ jobst[j] \in {"ended", "released", "aborting", "holding"}                            \* no pid file / process gone
   /\ jobst[j] # "holding" \/ ~alive[Owner[j]]                                            \* (a live owner starts its job under the job lock)
   /\ watching' = [watching EXCEPT ![p] = @ \ {j}] /\ reclaiming' = [reclaiming EXCEPT ![p] = @ \cup {j}]
-  /\ UNCHANGED <<files, pend, ipc, cs, alive, obs, avail, cache, jobst, dstat, notify, wl>>
+  /\ UNCHANGED <<files, pend, ipc, cs, alive, obs, avail, cache, jobst, dstat, notify, wl, info>>
 
 ReclaimDelete(p, j) ==
   /\ alive[p] /\ j \in reclaiming[p]
   /\ reclaiming' = [reclaiming EXCEPT ![p] = @ \ {j}]
   /\ files' = [files EXCEPT ![j] = "absent"] /\ pend' = IF Present(j) THEN Tell({"deleted"}, j) ELSE pend
-  /\ UNCHANGED <<ipc, cs, alive, obs, avail, cache, watching, jobst, dstat, notify, wl>>
+  /\ UNCHANGED <<ipc, cs, alive, obs, avail, cache, watching, jobst, dstat, notify, wl, info>>
+
+(* ---------------- the total is declared again ---------------- *)
+(* CounterToken.__init__ (force): under the ipc lock, token.info is rewritten and the directory recounted; the observers of
+   the other processes are told that the file changed *)
+Redeclare(p, n) ==
+  /\ alive[p] /\ cs[p] = None /\ ipc = "free" /\ (Readable \/ FixF5)
+  /\ \A j \in Jobs : Owner[j] = p => jobst[j] = "idle"       \* (a process that starts: it has submitted nothing yet)
+  /\ info' = [info EXCEPT !.total = n, !.ptotal[p] = n, !.max = IF n > @ THEN n ELSE @,
+                          !.pending = [q \in Procs |-> IF q # p /\ alive[q] /\ obs[q] THEN TRUE ELSE @[q]]]
+  /\ avail' = [avail EXCEPT ![p] = n - Sum({j \in OnDisk : files[j] = "written"})]
+  /\ cache' = [cache EXCEPT ![p] = {j \in OnDisk : files[j] = "written"}]
+  /\ watching' = [watching EXCEPT ![p] = @ \cup ({j \in OnDisk : files[j] = "written"} \ cache[p])]
+  /\ files' = [j \in Jobs |-> IF files[j] = "empty" THEN "absent" ELSE files[j]]
+  /\ UNCHANGED <<ipc, cs, alive, obs, pend, jobst, dstat, notify, reclaiming, wl>>
+
+(* on_modified(token.info), observer thread, no lock: the difference with the total in memory is added to the available
+   amount; when the token grew, the waiting dependencies are checked again *)
+OnInfo(q) ==
+  /\ alive[q] /\ obs[q] /\ (StrictEvents => info.pending[q])
+  /\ LET delta == info.total - info.ptotal[q]
+     IN /\ info' = [info EXCEPT !.ptotal[q] = info.total, !.pending[q] = FALSE]
+        /\ avail' = [avail EXCEPT ![q] = @ + delta]
+        /\ notify' = IF delta > 0 /\ avail[q] + delta > 0
+                     THEN [notify EXCEPT ![q] = @ \cup {k \in Jobs : Owner[k] = q /\ jobst[k] \in Waiting}] ELSE notify
+  /\ UNCHANGED <<files, ipc, cs, alive, obs, cache, watching, pend, jobst, dstat, reclaiming, wl>>
 
 (* ---------------- death of a scheduler process ---------------- *)
 Kill(p) ==
@@ -204,11 +234,13 @@ Kill(p) ==
   /\ ipc' = (IF ipc = p THEN "free" ELSE ipc) /\ cs' = [cs EXCEPT ![p] = None]
   /\ watching' = [watching EXCEPT ![p] = {}] /\ pend' = [pend EXCEPT ![p] = {}] /\ notify' = [notify EXCEPT ![p] = {}]
   /\ reclaiming' = [reclaiming EXCEPT ![p] = {}]
+  /\ info' = [info EXCEPT !.pending[p] = FALSE]
   /\ UNCHANGED <<files, avail, cache, jobst, dstat, wl>>
 
 Next ==
   \/ \E j \in Jobs : SubmitAdd(j) \/ SubmitCheck(j) \/ JobStart(j) \/ JobEnd(j) \/ Abort(j)
   \/ \E p \in Procs, j \in Jobs, k \in {"acq", "rel"} : Lock(p, k, j)
+  \/ \E p \in Procs : OnInfo(p) \/ \E n \in wl.totals : n # info.total /\ Redeclare(p, n)
   \/ \E p \in Procs : Recount(p) \/ AcqFail(p) \/ CreateOpen(p) \/ CreateWrite(p) \/ AcqOk(p) \/ RelDelete(p) \/ RelOk(p) \/ Kill(p)
   \/ \E p \in Procs, j \in Jobs : Recheck(p, j) \/ OnDeleted(p, j) \/ ReclaimDecide(p, j) \/ ReclaimDelete(p, j)
         \/ OnCreatedOrModified(p, "created", j) \/ OnCreatedOrModified(p, "modified", j)
@@ -218,7 +250,7 @@ Spec == (\E w \in {} : InitWith(w)) /\ [][Next]_vars   \* Init is provided by th
 (* ---------------- properties ---------------- *)
 Holders == {j \in Jobs : files[j] = "written"}
 (* C08: the jobs holding the token never hold more than its total *)
-Capacity == Sum(Holders) <= Total
+Capacity == Sum(Holders) <= info.max       \* (a total declared again never takes back what running jobs hold)
 (* C08: only the process inside the critical section touches token files on behalf of an acquisition *)
 MutualExclusion == \A p \in Procs : cs[p] # None => ipc = p
 (* C09: a token file is only taken away from a job that has ended (or never started because its scheduler died) *)
@@ -226,11 +258,11 @@ ReclaimOnlyAfterEnd == [][\A j \in Jobs : (files[j] = "written" /\ files'[j] = "
 (* C09: observers survive (otherwise releases made by other processes are never noticed) *)
 ObserversSurvive == \A p \in Procs : alive[p] => obs[p]
 (* C09: at quiescence, a waiting job whose request fits has been told so *)
-Quiescent == /\ \A p \in Procs : cs[p] = None /\ pend[p] = {} /\ notify[p] = {}
+Quiescent == /\ \A p \in Procs : cs[p] = None /\ pend[p] = {} /\ notify[p] = {} /\ ~(alive[p] /\ obs[p] /\ info.pending[p])
              /\ \A j \in Jobs : jobst[j] \notin {"registered", "checked"}            \* no submission half-way
              /\ \A j \in Jobs : alive[Owner[j]] => jobst[j] \notin {"holding", "aborting", "running", "ended"}   \* live schedulers have released
              /\ \A p \in Procs, j \in Jobs : ~ENABLED ReclaimDecide(p, j) /\ j \notin reclaiming[p]
-Informed == Quiescent => \A j \in Jobs : (jobst[j] = "submitted" /\ alive[Owner[j]] /\ Req[j] <= Total - Sum(Holders)) => dstat[j] = "OK"
+Informed == Quiescent => \A j \in Jobs : (jobst[j] = "submitted" /\ alive[Owner[j]] /\ Req[j] <= info.total - Sum(Holders)) => dstat[j] = "OK"
 (* C09: a half-written token file always has a live writer (otherwise nobody can use the token any more) *)
 (* (with the repair an orphan empty file is harmless: the next recount removes it) *)
 NoOrphanEmptyFile == FixF5 \/ \A j \in Jobs : files[j] = "empty" => \E p \in Procs : alive[p] /\ cs[p].job = j /\ cs[p].step = "opened"
